@@ -91,6 +91,19 @@ func longReset(t *testing.T, run *ev.Run, idx int, p *vchain.Producer, proto fun
 			}
 		}
 		run.Obs("long_resets", 1)
+		// what the two nodes report about the header chain, for every index up
+		// to beyond the height the chain had before the reset
+		if bc.HeaderHeight() != fresh.BC.HeaderHeight() || bc.BlockHeight() != fresh.BC.BlockHeight() {
+			run.Violation("reset:height-differs-from-fresh-node", id, fmt.Sprintf("reset node at %d/%d, fresh node at %d/%d", bc.BlockHeight(), bc.HeaderHeight(), fresh.BC.BlockHeight(), fresh.BC.HeaderHeight()), map[string]any{"target": target, "from": len(p.Raw)})
+		}
+		for i := 0; i <= len(p.Raw)+3; i++ {
+			a, b := bc.GetHeaderHash(uint32(i)), fresh.BC.GetHeaderHash(uint32(i))
+			run.Obs("long_reset_header_hashes_compared", 1)
+			if a != b {
+				run.Violation("reset:header-hash-differs-from-fresh-node", id, fmt.Sprintf("index %d: reset node %s, fresh node %s (reset from %d to %d)", i, a.StringLE(), b.StringLE(), len(p.Raw), target), map[string]any{"target": target, "from": len(p.Raw), "index": i})
+				break
+			}
+		}
 		if d := compareTransferHistories(run, bc, fresh.BC); d != "" {
 			run.Violation("reset:token-transfer-history-differs-from-fresh-node", id, d, map[string]any{"target": target, "from": len(p.Raw), "kind": "long", "n": ti})
 		}
